@@ -1,5 +1,10 @@
 package main
 
+import (
+	"fmt"
+	"strings"
+)
+
 // Spellings: the same abstract program written in another LEGAL way (Go's grammar gives both texts the same meaning).  A case that
 // carries "spell" is rendered through respell(); the specification still runs the program as it stands in the case, so the
 // observation of the respelled text must be what TshDyn prescribes for the program.
@@ -204,6 +209,39 @@ func spellBlock(ss []any, mode string) {
 			spellStmt(n, mode, true)
 		}
 	}
+}
+
+// airy is a spelling of the TEXT: a blank or a comment line behind every line that opens a block and in front of every line that closes one or
+// starts a case (round 15: a blank line in front of a function's closing brace switched the end-of-body checks off).
+func airy(text string) string {
+	if strings.Contains(text, "`") {
+		return text // a raw string may span lines
+	}
+	lines := strings.Split(text, "\n")
+	out := []string{}
+	n := 0
+	filler := func(ind string) string {
+		n++
+		switch n % 3 {
+		case 0:
+			return ""
+		case 1:
+			return ind + "// note " + fmt.Sprint(n)
+		}
+		return ind + "/* c */"
+	}
+	for _, l := range lines {
+		t := strings.TrimLeft(l, "\t ")
+		ind := l[:len(l)-len(t)]
+		if strings.HasPrefix(t, "}") || strings.HasPrefix(t, "case ") || strings.HasPrefix(t, "default:") {
+			out = append(out, filler(ind+"\t"))
+		}
+		out = append(out, l)
+		if strings.HasSuffix(t, "{") {
+			out = append(out, filler(ind+"\t"))
+		}
+	}
+	return strings.Join(out, "\n")
 }
 
 // respell returns a respelled deep copy of a statement list.
